@@ -1,4 +1,5 @@
 import QuillModel.Backend.Fault
+import QuillModel.Backend.UOps
 import QuillModel.Drivers.Util
 /-!
 Correspondence driver for the backend model: replays the script executed by `harness/h2_backend.cpp` on
@@ -86,6 +87,32 @@ def exec (fc : FCfg) (s : BSt) (w : List String) : BSt × String :=
   | some op => applyOpF fc s (.base op)
   | none => (s, "bad-op")
 
+/-! the two unbounded builds: the same script language plus `SH a want` / `QC a` -/
+
+def parseUFOp : List String → Option UFOp
+  | ["SH", a, w] => some (.shrink (nat! a) (nat! w))
+  | ["QC", a] => some (.capq (nat! a))
+  | w => (parseFOp w).map .base
+
+def parseInjectU (w : String) : Option (Nat × Nat × List UFOp) :=
+  if !w.startsWith "@" then none else
+  match (String.ofList (w.toList.drop 1)).splitOn "=" with
+  | [sk, ops] =>
+    match sk.splitOn "." with
+    | [a, b] => some (nat! a, nat! b, (ops.splitOn ",").filterMap (fun o => parseUFOp (o.splitOn "_")))
+    | _ => none
+  | _ => none
+
+def parseUOp : List String → Option Backend.UOp
+  | "P" :: rest => some (.poll (rest.filterMap parseInjectU))
+  | ["X"] => some .exit
+  | w => (parseUFOp w).map .front
+
+def execU (u : UP) (s : BSt) (w : List String) : BSt × String :=
+  match parseUOp w with
+  | some op => applyOpU u s op
+  | none => (s, "bad-op")
+
 structure Setup where
   grace : Nat := 0
   soft : Nat := 4096
@@ -100,7 +127,12 @@ structure Setup where
   reportFlush : Bool := true
   keepUnreported : Bool := true
   flushInvalid : Bool := true
+  unbounded : Bool := false
+  qmax : Nat := 4096
+  follow : Bool := true
   replayCatch : Bool := true
+  flushInt : Nat := 0          -- ns
+  flushBeforeErase : Bool := true
   sinks : List Sink := []
   lgs : List Lg := []
 
@@ -110,8 +142,11 @@ def mkState (u : Setup) (hdr strOv now : Nat) : BSt :=
              strOverhead := strOv, batchPct := u.batchPct, qp := qp, invalidBits := u.invalidBits,
              refreshAfterSample := u.refreshAfter, catchAllFormat := u.catchAll,
              reportBeforeFlushCleanup := u.reportFlush, cleanupKeepsUnreported := u.keepUnreported, flushInvalidatedLoggers := u.flushInvalid,
-             replayCatchesPerEvent := u.replayCatch },
-    now := now, sinks := u.sinks, lgs := u.lgs,
+             replayCatchesPerEvent := u.replayCatch, flushInterval := u.flushInt,
+             flushBeforeLoggerErase := u.flushBeforeErase },
+    -- the calibration polls of the harness's `start` ran an idle pass at `now`: with a non-zero interval that pass
+    -- flushed (the steady clock is far from its epoch) and recorded `now` as `_last_sink_flush_time`
+    now := now, lastFlush := now, sinks := u.sinks, lgs := u.lgs,
     names := (List.range u.lgs.length).map (fun i => ((u.lgs.getD i default).gid, i)) }
 
 def runTrace : IO UInt32 := do
@@ -119,6 +154,7 @@ def runTrace : IO UInt32 := do
   let lines ← Drv.readLines stdin
   let mut u : Setup := {}
   let mut fc : FCfg := {}
+  let mut skipRest := false
   let mut st : Option BSt := none
   let mut mism := 0
   let mut total := 0
@@ -138,7 +174,7 @@ def runTrace : IO UInt32 := do
     match w with
     | "case" :: name :: _ =>
       if st.isSome then IO.println s!"TRACE {id} lines={total} polls={polls} writes={writes} parks={parks} drops={drops} injected={injected}"
-      id := name; u := {}; st := none; traces := traces + 1
+      id := name; u := {}; st := none; skipRest := false; traces := traces + 1
       total := 0; polls := 0; writes := 0; parks := 0; drops := 0; injected := 0
     | "params" :: rest =>
       for x in rest do
@@ -151,10 +187,12 @@ def runTrace : IO UInt32 := do
         | some ("reportFlush", v) => u := { u with reportFlush := v == "1" }
         | some ("keepUnreported", v) => u := { u with keepUnreported := v == "1" }
         | some ("flushInvalid", v) => u := { u with flushInvalid := v == "1" }
+        | some ("follow", v) => u := { u with follow := v == "1" }
         | some ("replayCatch", v) => u := { u with replayCatch := v == "1" }
         | some ("patInLoop", v) => fc := { fc with patInLoop := v == "1" }
         | some ("readAborts", v) => fc := { fc with readAborts := v == "1" }
         | some ("notifyAlways", v) => fc := { fc with notifyAlways := v == "1" }
+        | some ("flushBeforeErase", v) => u := { u with flushBeforeErase := v == "1" }
         | _ => pure ()
     | "cfg" :: rest =>
       for x in rest ++ Drv.words obsS do
@@ -162,8 +200,12 @@ def runTrace : IO UInt32 := do
         | some ("grace", v) => u := { u with grace := nat! v * 1000 }
         | some ("soft", v) => u := { u with soft := nat! v }
         | some ("hard", v) => u := { u with hard := nat! v }
-        | some ("variant", v) => u := { u with dropping := (nat! v) % 2 == 1 }
+        | some ("variant", v) =>
+          let isU := decide (2 ≤ nat! v)
+          u := { u with dropping := (nat! v) % 2 == 1, unbounded := isU }
+        | some ("qmax", v) => u := { u with qmax := nat! v }
         | some ("qcap", v) => u := { u with qcap := nat! v }
+        | some ("flushint", v) => u := { u with flushInt := nat! v * 1000000 }
         | _ => pure ()
     | "sink" :: sid :: rest =>
       let mut k : Sink := { sid := nat! sid }
@@ -206,7 +248,16 @@ def runTrace : IO UInt32 := do
       match st with
       | none => IO.println s!"NOT-STARTED line {lineNo}: {line}"; mism := mism + 1
       | some s =>
-        let (s1, res) := exec fc { s with out := [] } w
+        -- w2_faults: variants 0/1 run on the fault machine; the unbounded builds run on the U machine, which knows neither fault
+        -- kinds / failing patterns nor read-pass aborts: `LU` is an `LS` there (same bytes), and from the first `DT` / `NA` on (or
+        -- with sinks carrying the new fault kinds) the rest of the case is left to the property oracles
+        if u.unbounded && (w.head? == some "DT" || w.head? == some "NA" ||
+            u.sinks.any (fun k => !k.wkind.isEmpty || !k.fkind.isEmpty || k.patFails)) then
+          skipRest := true
+        if skipRest then continue
+        let wU := match w with | ["LU", a, g, len] => ["LS", a, g, "4", len] | _ => w
+        let (s1, res) := if u.unbounded then execU { qmax := u.qmax, follow := u.follow } { s with out := [] } wU
+                         else exec fc { s with out := [] } w
         let (s2, evs) := takeEvents s1
         let mobs := if evs.isEmpty then res else s!"{res} | {evs}"
         total := total + 1
